@@ -153,6 +153,15 @@ where
 
         Path(path_states)
     }
+
+    /// Snapshot of the search tree: (state, parent index, recorded cost) per node.
+    #[cfg(oxmpl_verif)]
+    pub fn verif_tree(&self) -> Vec<(S, Option<usize>, f64)> {
+        self.tree
+            .iter()
+            .map(|n| (n.state.clone(), n.parent_index, n.cost))
+            .collect()
+    }
 }
 
 impl<S, SP, G> Planner<S, SP, G> for RRTStar<S, SP, G>
@@ -178,9 +187,18 @@ where
             cost: 0.0,
         };
         self.tree.push(start_node);
+        #[cfg(oxmpl_verif)]
+        crate::verif::emit(crate::verif::Event::Push {
+            tree: 0,
+            idx: 0,
+            parent: None,
+            cost: 0.0,
+        });
     }
 
     fn solve(&mut self, timeout: Duration) -> Result<Path<S>, PlanningError> {
+        #[cfg(oxmpl_verif)]
+        use crate::verif::Instant;
         let pd = self
             .problem_def
             .as_ref()
@@ -271,6 +289,13 @@ where
             };
             self.tree.push(new_node);
             let new_node_index = self.tree.len() - 1;
+            #[cfg(oxmpl_verif)]
+            crate::verif::emit(crate::verif::Event::Push {
+                tree: 0,
+                idx: new_node_index,
+                parent: Some(best_parent_index),
+                cost: min_cost,
+            });
 
             // 8. Rewire tree
             for &neighbour_idx in &neighbours {
@@ -293,6 +318,12 @@ where
                     let mutable_neighbour_node = &mut self.tree[neighbour_idx];
                     mutable_neighbour_node.parent_index = Some(new_node_index);
                     mutable_neighbour_node.cost = cost_via_new_node;
+                    #[cfg(oxmpl_verif)]
+                    crate::verif::emit(crate::verif::Event::Rewire {
+                        idx: neighbour_idx,
+                        parent: new_node_index,
+                        cost: cost_via_new_node,
+                    });
                 }
             }
 
